@@ -158,6 +158,15 @@ func (f *FailAt) Read(p []byte) (int, error) {
 		f.pos += n
 		return n, nil
 	}
+	if f.At > len(f.Data) {
+		// no fault inside the data: an ordinary reader
+		if f.pos >= len(f.Data) {
+			return 0, io.EOF
+		}
+		n := copy(p, f.Data[f.pos:])
+		f.pos += n
+		return n, nil
+	}
 	if f.pos >= f.At {
 		f.Delivered = true
 		f.fired = true
